@@ -1,7 +1,7 @@
 """C10 - all rendering entry points produce the same text.
 
 Case: {"templates": {name: source}, "main": name, "data": {...}, "encodings": [[codec, errors], ...],
-       "rounds": [environment globals dict, ...] (optional)}
+       "rounds": [environment globals dict, ...] (optional), "autoescape": bool (optional, default false)}
 
 For the main template of a DictLoader set (a G-stmt program, or a small include/import or extends set built
 around G-stmt programs) and one data dict, in a sync and in an async environment:
@@ -36,7 +36,9 @@ RULE = (
     "2..8, dump to path / BytesIO / StringIO with 2 codecs drawn from 18 codec/error-handler pairs incl. BOM and stateful (iso2022, hz, utf-7) codecs; one case in ten is a template that yields no piece, make_module, template.module; the async "
     "counterparts in an async environment) is compared with render, and the buffered chunks with the chunk rule; then two "
     "rounds with empty data and changed environment globals on the same Template objects (every entry point incl. "
-    "make_module() / make_module({}) must follow the change). "
+    "make_module() / make_module({}) must follow the change). Half of the cases run in autoescaping environments (pieces "
+    "are then Markup objects next to plain template text with HTML metacharacters); half of the single-template cases are "
+    "alpha-renamed into the G-stmt identifier pools plus the attribute names of a TemplateModule object. "
     "Non-trivial = the piece list of generate() has at least 3 non-empty pieces and at least one empty piece (so that for "
     "size 2 a non-final chunk exists and empty pieces matter); distinct = distinct case."
 )
@@ -74,11 +76,11 @@ def _jinja():
     return _state["j"]
 
 
-def _envs(templates):
+def _envs(templates, autoescape=False):
     j = _jinja()
     ext = ["jinja2.ext.loopcontrols"]
-    return (j.Environment(loader=j.DictLoader(dict(templates)), extensions=ext),
-            j.Environment(loader=j.DictLoader(dict(templates)), extensions=ext, enable_async=True))
+    return (j.Environment(loader=j.DictLoader(dict(templates)), extensions=ext, autoescape=autoescape),
+            j.Environment(loader=j.DictLoader(dict(templates)), extensions=ext, autoescape=autoescape, enable_async=True))
 
 
 def _outcome(fn):
@@ -123,7 +125,11 @@ def check_case(case):
     templates, main, data = case["templates"], case["main"], case["data"]
     encodings = [tuple(e) for e in case.get("encodings", [["utf-8", "strict"]])]
     src = templates[main]
-    senv, aenv = _envs(templates)
+    senv, aenv = _envs(templates, bool(case.get("autoescape", False)))
+    if case.get("autoescape"):
+        labels_pre = ("autoescape",)
+    else:
+        labels_pre = ()
     labels = set()
     workdir = os.path.join(core.VERIF, ".work", "c10-%d" % os.getpid())
 
@@ -131,6 +137,9 @@ def check_case(case):
     t = senv.get_template(main)
     ref = _outcome(lambda: t.render(dict(data)))
     labels.add("render_" + ref[0])
+    labels.update(labels_pre)
+    if case.get("renamed"):
+        labels.add("renamed")
 
     def same(name, got, want=None):
         want = ref if want is None else want
@@ -423,6 +432,37 @@ def _strategies():
                 d[n] = draw(seq)
         return d
 
+    # Identifiers a template-level name may collide with: the attribute names of a TemplateModule object (whatever the
+    # code under test defines; names starting with an underscore are never exported, the others must not be clobbered
+    # by exported template variables) plus the generic identifier pools of G-stmt.
+    probe = _jinja().Environment().from_string("").module
+    attr_pool = sorted(n for n in set(dir(probe)) | set(vars(probe)) if n.isidentifier() and G.nfkc_stable(n) and n not in G.RESERVED)
+
+    @st.composite
+    def finish(draw, case, prog):
+        """Draw the autoescape flag and, for single-template shapes, a bijective renaming of the program's identifiers
+        (template source, data and round globals are renamed consistently)."""
+        case["autoescape"] = draw(st.booleans())
+        if prog is not None and draw(st.booleans()):
+            ids = sorted(set(G.identifiers(prog)) | set(G.VARS))
+            pool = G.ALL_IDENTS + ids
+            rename, used = {}, set()
+            for n in ids:
+                src_pool = attr_pool if (attr_pool and draw(st.integers(0, 3)) == 0) else pool
+                j = draw(st.integers(0, len(src_pool) - 1))
+                while src_pool[j] in used:
+                    j = (j + 1) % len(src_pool)
+                    if src_pool is attr_pool and all(x in used for x in attr_pool):
+                        src_pool, j = pool, 0
+                used.add(src_pool[j])
+                rename[n] = src_pool[j]
+            tail = case["templates"]["main"][len(G.print_program(prog)):]
+            case["templates"]["main"] = G.print_program(prog, rename) + tail
+            case["data"] = G.rename_data(case["data"], rename)
+            case["rounds"] = [G.rename_data(g, rename) for g in case["rounds"]]
+            case["renamed"] = True
+        return case
+
     LIB = ("{% macro lm(x) %}<{{ x }}{{ a }}>{% endmacro %}{% macro lc() %}({{ caller() }}){% endmacro %}"
            "{% set lk = b ~ 'K' %}L{{ b }}{{ '' }}")
     MODULE_STMTS = [
@@ -449,9 +489,10 @@ def _strategies():
             prog = [s for s in prog if s[0] in ("set", "nsnew", "macro", "setblock")][: draw(st.integers(0, 3))]
             d = draw(data())
             encs = draw(st.lists(st.sampled_from(CODECS), min_size=2, max_size=2))
-            src = G.print_program(bounded(prog, d)) + draw(st.sampled_from(["", "{# c #}", "{% if false %}x{% endif %}"]))
-            return {"shape": shape, "templates": {"main": src}, "main": "main", "data": d, "encodings": [list(e) for e in encs],
-                    "rounds": [draw(data())]}
+            prog = bounded(prog, d)
+            src = G.print_program(prog) + draw(st.sampled_from(["", "{# c #}", "{% if false %}x{% endif %}"]))
+            return draw(finish({"shape": shape, "templates": {"main": src}, "main": "main", "data": d,
+                                "encodings": [list(e) for e in encs], "rounds": [draw(data())]}, prog))
         # a few plain outputs of pool names / constants so that most templates have several pieces, some of them empty
         for _ in range(draw(st.integers(0, 6))):
             e = draw(st.sampled_from([["name", "a"], ["name", "b"], ["name", "c"], ["name", "d"], ["str", ""], ["str", "q"],
@@ -507,8 +548,8 @@ def _strategies():
                 if k.startswith("layout") or k == "inc_name":
                     g[k] = v
             rounds.append(g)
-        return {"shape": shape, "templates": templates, "main": "main", "data": d, "encodings": [list(e) for e in encs],
-                "rounds": rounds}
+        return draw(finish({"shape": shape, "templates": templates, "main": "main", "data": d,
+                            "encodings": [list(e) for e in encs], "rounds": rounds}, prog if shape == "plain" else None))
 
     return tsets
 
@@ -538,7 +579,7 @@ def floors(total, tier):
     n = max(1, total.evaluations)
     msgs = []
     for name, lo in (("nontrivial", 0.3), ("has_empty_piece", 0.3), ("non_ascii", 0.1), ("shape_modules", 0.15), ("shape_inherit", 0.15),
-                     ("render_ok", 0.6), ("rounds_differ", 0.3), ("shape_silent", 0.04), ("cjk_text", 0.05)):
+                     ("render_ok", 0.6), ("rounds_differ", 0.3), ("shape_silent", 0.04), ("cjk_text", 0.05), ("autoescape", 0.3), ("renamed", 0.1)):
         if lab.get(name, 0) < lo * n:
             msgs.append("%s %d/%d < %d%%" % (name, lab.get(name, 0), n, lo * 100))
     return "; ".join(msgs) or None
